@@ -680,6 +680,75 @@ impl Probe for TrackedBig {
     }
 }
 
+/// Huge heap-owning instrumented value: 1304 bytes / align 8 (size thresholds such as 1 KiB).
+#[derive(Debug, Clone)]
+pub struct TrackedHuge {
+    t: Tracked,
+    pad: [u64; 160],
+}
+
+impl Probe for TrackedHuge {
+    fn make(id: u64) -> Self {
+        let mut pad = [0u64; 160];
+        for (i, x) in pad.iter_mut().enumerate() {
+            *x = scr(id).wrapping_add(i as u64);
+        }
+        TrackedHuge { t: Tracked::make(id), pad }
+    }
+    fn make_detached(id: u64) -> Self {
+        let mut v = Self::make_detached_inner(id);
+        v.pad[0] = scr(id);
+        v
+    }
+    fn norm(id: u64) -> u64 {
+        scr(id)
+    }
+    fn ident(&self) -> u64 {
+        let id = self.t.ident();
+        for (i, x) in self.pad.iter().enumerate() {
+            if *x != id.wrapping_add(i as u64) {
+                return POISON | (id & 0xffff_ffff);
+            }
+        }
+        id
+    }
+    fn serials(&self) -> Vec<u64> {
+        vec![self.t.serial]
+    }
+    fn clone_points() -> usize {
+        1
+    }
+}
+
+impl TrackedHuge {
+    fn make_detached_inner(id: u64) -> Self {
+        let mut pad = [0u64; 160];
+        for (i, x) in pad.iter_mut().enumerate() {
+            *x = scr(id).wrapping_add(i as u64);
+        }
+        TrackedHuge { t: Tracked::make_detached(id), pad }
+    }
+}
+
+impl serde::Serialize for TrackedHuge {
+    fn serialize<S: serde::Serializer>(&self, serializer: S) -> Result<S::Ok, S::Error> {
+        // the payload alone determines the value
+        serializer.serialize_u64(self.ident())
+    }
+}
+
+impl<'de> serde::Deserialize<'de> for TrackedHuge {
+    fn deserialize<D: serde::Deserializer<'de>>(deserializer: D) -> Result<Self, D::Error> {
+        let t = Tracked::deserialize(deserializer)?;
+        let id = t.ident;
+        let mut pad = [0u64; 160];
+        for (i, x) in pad.iter_mut().enumerate() {
+            *x = id.wrapping_add(i as u64);
+        }
+        Ok(TrackedHuge { t, pad })
+    }
+}
+
 /// Odd-sized droppable value: 12 bytes / align 4 (a `Box` would force align 8, so this one
 /// keeps its serial inline and owns no heap memory).
 #[derive(Debug)]
